@@ -329,10 +329,177 @@ func isMutexCall(ins ssa.Instruction, method string) (ssa.Value, bool) {
 	return cc.Args[0], true
 }
 
+// capturedParam: inside the function literal fn, v is a load of the captured parameter number i
+// of the enclosing function (which never assigns it again).
+func capturedParam(fn *ssa.Function, v ssa.Value, i int) bool {
+	parent := fn.Parent()
+	ld, ok := v.(*ssa.UnOp)
+	if parent == nil || !ok || ld.Op != token.MUL || i >= len(parent.Params) {
+		return false
+	}
+	fv, ok := ld.X.(*ssa.FreeVar)
+	if !ok {
+		return false
+	}
+	idx := -1
+	for k, f := range fn.FreeVars {
+		if f == fv {
+			idx = k
+		}
+	}
+	found := false
+	allInstrs(parent, func(_ *ssa.BasicBlock, ins ssa.Instruction) {
+		mc, ok := ins.(*ssa.MakeClosure)
+		if !ok || mc.Fn != ssa.Value(fn) || idx < 0 || idx >= len(mc.Bindings) {
+			return
+		}
+		cell, ok := mc.Bindings[idx].(*ssa.Alloc)
+		if !ok || cell.Referrers() == nil {
+			return
+		}
+		stores, good := 0, 0
+		for _, ref := range *cell.Referrers() {
+			if st, ok := ref.(*ssa.Store); ok && st.Addr == ssa.Value(cell) {
+				stores++
+				if st.Val == ssa.Value(parent.Params[i]) {
+					good++
+				}
+			}
+		}
+		found = stores == 1 && good == 1
+	})
+	return found
+}
+
+// isRecvValue: v is the receiver of the method fn - or, when fn is a function literal inside a
+// method, the method's receiver as the literal captured it.
+func isRecvValue(fn *ssa.Function, v ssa.Value) bool {
+	if fn.Signature.Recv() != nil && len(fn.Params) > 0 && v == ssa.Value(fn.Params[0]) {
+		return true
+	}
+	parent := fn.Parent()
+	ld, ok := v.(*ssa.UnOp)
+	if parent == nil || !ok || ld.Op != token.MUL || parent.Signature.Recv() == nil || len(parent.Params) == 0 {
+		return false
+	}
+	fv, ok := ld.X.(*ssa.FreeVar)
+	if !ok {
+		return false
+	}
+	idx := -1
+	for i, f := range fn.FreeVars {
+		if f == fv {
+			idx = i
+		}
+	}
+	found := false
+	allInstrs(parent, func(_ *ssa.BasicBlock, ins ssa.Instruction) {
+		mc, ok := ins.(*ssa.MakeClosure)
+		if !ok || mc.Fn != ssa.Value(fn) || idx < 0 || idx >= len(mc.Bindings) {
+			return
+		}
+		cell, ok := mc.Bindings[idx].(*ssa.Alloc)
+		if !ok || cell.Referrers() == nil {
+			return
+		}
+		stores, recvStores := 0, 0
+		for _, ref := range *cell.Referrers() {
+			if st, ok := ref.(*ssa.Store); ok && st.Addr == ssa.Value(cell) {
+				stores++
+				if st.Val == ssa.Value(parent.Params[0]) {
+					recvStores++
+				}
+			}
+		}
+		found = stores == 1 && recvStores == 1
+	})
+	return found
+}
+
+// recvOrSpill: v is the receiver parameter of fn, or a load of the cell it was spilled to
+// because a function literal captures it.
+func recvOrSpill(fn *ssa.Function, v ssa.Value) bool {
+	if len(fn.Params) == 0 {
+		return false
+	}
+	if v == ssa.Value(fn.Params[0]) {
+		return true
+	}
+	ld, ok := v.(*ssa.UnOp)
+	if !ok || ld.Op != token.MUL {
+		return false
+	}
+	cell, ok := ld.X.(*ssa.Alloc)
+	if !ok || cell.Referrers() == nil {
+		return false
+	}
+	stores, recvStores := 0, 0
+	for _, ref := range *cell.Referrers() {
+		if st, ok := ref.(*ssa.Store); ok && st.Addr == ssa.Value(cell) {
+			stores++
+			if st.Val == ssa.Value(fn.Params[0]) {
+				recvStores++
+			}
+		}
+	}
+	return stores == 1 && recvStores == 1
+}
+
+// lockedRunner: g is a method that runs its function argument between Lock and Unlock of a
+// mutex of its receiver and does nothing else: `func (a *T) locked(f func()) { a.mu.Lock(); f(); a.mu.Unlock() }`.
+func lockedRunner(g *ssa.Function) bool {
+	if g == nil || len(g.Blocks) == 0 || g.Signature.Recv() == nil || len(g.Params) != 2 {
+		return false
+	}
+	var lock, unlock, run ssa.Instruction
+	n := 0
+	deferred := false
+	okShape := true
+	allInstrs(g, func(_ *ssa.BasicBlock, ins ssa.Instruction) {
+		if m, ok := isMutexCall(ins, "Lock"); ok {
+			if fa, isFA := m.(*ssa.FieldAddr); !isFA || fa.X != ssa.Value(g.Params[0]) {
+				okShape = false
+			}
+			lock = ins
+			n++
+			return
+		}
+		if _, ok := isMutexCall(ins, "Unlock"); ok {
+			if _, isD := ins.(*ssa.Defer); isD {
+				deferred = true
+			}
+			unlock = ins
+			n++
+			return
+		}
+		switch x := ins.(type) {
+		case *ssa.Call:
+			if x.Call.Value == ssa.Value(g.Params[1]) && !x.Call.IsInvoke() {
+				run = ins
+				n++
+				return
+			}
+			okShape = false
+		case *ssa.Send, *ssa.Store, *ssa.Go, *ssa.Panic:
+			okShape = false
+		}
+	})
+	if !okShape || lock == nil || unlock == nil || run == nil || n != 3 {
+		return false
+	}
+	if !precedes(lock, run) {
+		return false
+	}
+	if deferred {
+		return precedes(unlock, run)
+	}
+	return everyPathHits(run, func(x ssa.Instruction) bool { _, ok := isMutexCall(x, "Unlock"); return ok })
+}
+
 // fieldOfRecv: v is &recv.<field> for the method's receiver; returns the field name.
 func fieldOfRecv(fn *ssa.Function, v ssa.Value) (string, bool) {
 	fa, ok := v.(*ssa.FieldAddr)
-	if !ok || len(fn.Params) == 0 || fa.X != ssa.Value(fn.Params[0]) {
+	if !ok || !isRecvValue(fn, fa.X) {
 		return "", false
 	}
 	st, ok := fa.X.Type().Underlying().(*types.Pointer).Elem().Underlying().(*types.Struct)
@@ -354,6 +521,41 @@ func ruleBufferIn(ctx *Ctx, r *Report, tname string, fn *ssa.Function, isWrite b
 		mname = "Write"
 	}
 	key := tname + "." + mname
+	if !held {
+		// the critical section as a function literal handed to a lock-holding runner:
+		// `a.locked(func() { ... })`
+		var body *ssa.Function
+		nRun, other := 0, false
+		allInstrs(fn, func(_ *ssa.BasicBlock, ins ssa.Instruction) {
+			switch x := ins.(type) {
+			case *ssa.Call:
+				g := x.Call.StaticCallee()
+				if g != nil && lockedRunner(g) && len(x.Call.Args) == 2 && len(fn.Params) > 0 && recvOrSpill(fn, x.Call.Args[0]) {
+					if mc, ok := x.Call.Args[1].(*ssa.MakeClosure); ok {
+						if lit, ok := mc.Fn.(*ssa.Function); ok {
+							body = lit
+							nRun++
+							return
+						}
+					}
+				}
+				if _, ok := isMutexCall(ins, "Lock"); ok {
+					other = true
+				}
+			case *ssa.Send:
+				other = true
+			case *ssa.FieldAddr:
+				if _, ok := fieldOfRecv(fn, x); ok {
+					other = true // the method itself touches the buffer
+				}
+			}
+		})
+		if nRun == 1 && !other && body != nil {
+			r.check("B1", key+"|buffer-accessed-and-sent-under-its-mutex", fn.Pos(), true, "the function literal that appends, tests, sends and re-binds runs inside the critical section of a lock-holding runner; the method touches nothing of the buffer itself")
+			ruleBufferIn(ctx, r, tname, body, isWrite, true)
+			return
+		}
+	}
 	if !held {
 		// the critical section's body in a helper: `a.lock.Lock(); a.add(in); a.lock.Unlock()`
 		hasSend := false
@@ -441,9 +643,9 @@ func ruleBufferIn(ctx *Ctx, r *Report, tname string, fn *ssa.Function, isWrite b
 	}
 	// the buffer field: the slice field of the receiver that is sent
 	var sends []*ssa.Send
-	sendIn := map[*ssa.Send]*ssa.Function{}  // the function a send lies in (fn, or a helper of the receiver)
+	sendIn := map[*ssa.Send]*ssa.Function{}   // the function a send lies in (fn, or a helper of the receiver)
 	sendAt := map[*ssa.Send]ssa.Instruction{} // the instruction of fn that performs it (the send, or the helper call)
-	var accesses []ssa.Instruction           // loads/stores of slice/chan fields of the receiver
+	var accesses []ssa.Instruction            // loads/stores of slice/chan fields of the receiver
 	if !held {
 		// a flush helper of the same receiver holding one send and no locking of its own, called
 		// from inside the critical section, counts as a send at its call site
@@ -651,10 +853,13 @@ func ruleBufferIn(ctx *Ctx, r *Report, tname string, fn *ssa.Function, isWrite b
 				return false
 			}
 			bi, ok := c.Call.Value.(*ssa.Builtin)
-			if !ok || bi.Name() != "append" || len(c.Call.Args) != 2 || len(fn.Params) < 2 {
+			if !ok || bi.Name() != "append" || len(c.Call.Args) != 2 {
 				return false
 			}
-			return c.Call.Args[1] == ssa.Value(fn.Params[1])
+			if fn.Parent() != nil {
+				return capturedParam(fn, c.Call.Args[1], 1)
+			}
+			return len(fn.Params) >= 2 && c.Call.Args[1] == ssa.Value(fn.Params[1])
 		}
 		first := fn.Blocks[0].Instrs[0]
 		okA := isAppendIn(first) || everyPathHits(first, isAppendIn)
